@@ -57,6 +57,9 @@ def run(ctx):
     ctx.cov["real_inotify_steps"] = rep["cases"]
     for m in rep["mismatches"]:
         ctx.violation(f"C12/real:{m.get('what', '?')[:60]}", m.get("what"), {"mismatch": m})
+    # the watcher inside a real cache: every edit on disk must be named so that the cache follows it
+    from checks import hotcommon
+    hotcommon.fs_replay(ctx, thorough)
     ctx.cov["rule"] = ("cases = (entry, notification kind) pairs, each with every spelling of its path ('.', 'x/..' inserted), one and two roots; "
                        "distinct by content; all non-trivial")
     ctx.assumptions += ["synthetic notify::Event values stand for what the OS reports; the real-watcher histories check the required entries as a subset "
